@@ -315,7 +315,7 @@ pid_t wait(int *status) {
   static pid_t (*real)(int *);
   if (!real) real = dlsym(RTLD_NEXT, "wait");
   if (!active || coarse) return real(status);
-  request(NULL, 0, "wait");
+  request(NULL, 0, "wait 0");
   int st = 0;
   pid_t r = real(&st);
   int saved = errno;
@@ -329,7 +329,7 @@ pid_t waitpid(pid_t pid, int *status, int options) {
   static pid_t (*real)(pid_t, int *, int);
   if (!real) real = dlsym(RTLD_NEXT, "waitpid");
   if (!active || coarse) return real(pid, status, options);
-  request(NULL, 0, "wait");
+  request(NULL, 0, "wait %d", (options & WUNTRACED) ? 1 : 0); // (the controller may report a STOPPED child to a caller that asks for those)
   int st = 0;
   pid_t r = real(pid, &st, options);
   int saved = errno;
